@@ -919,7 +919,23 @@ fn lower_choices(probe: &Config) -> Vec<(&'static str, Tree)> {
             }
         }
     }
-    v.push(("localized d/a", locd));
+    v.push(("localized d/a", locd.clone()));
+    // only the OTHER languages' locations (the own localized location exists in no layer)
+    let mut others = locd;
+    if let Some(p) = probe.localize("d/a") {
+        let own = comps(&p).join("/");
+        if own != "d/a" {
+            others.remove(&own);
+        }
+        // drop directories that became empty
+        let dirs: Vec<String> = others.iter().filter(|(_, n)| matches!(n, Node::Dir)).map(|(k, _)| k.clone()).collect();
+        for d in dirs.into_iter().rev() {
+            if !others.keys().any(|k| k.starts_with(&format!("{}/", d))) {
+                others.remove(&d);
+            }
+        }
+    }
+    v.push(("other languages only", others));
     v
 }
 
@@ -970,7 +986,8 @@ pub fn configs(tier: Tier) -> Vec<Config> {
                 Tier::Quick => 1,
                 Tier::Thorough => 2,
             };
-            out.push(mk(loc, lang, vec![typed, choices[2].1.clone(), choices[6].1.clone()], format!("{:?}/{:?} layers=[typed, a+d/a, localized d/a]", loc, lang), depth));
+            out.push(mk(loc, lang, vec![typed.clone(), choices[2].1.clone(), choices[6].1.clone()], format!("{:?}/{:?} layers=[typed, a+d/a, localized d/a]", loc, lang), depth));
+            out.push(mk(loc, lang, vec![typed, choices[7].1.clone()], format!("{:?}/{:?} layers=[typed, other languages only]", loc, lang), depth));
         }
     }
     out
@@ -1076,7 +1093,7 @@ fn scale_script(sys: &Sys, o: &mut Outcome) -> u64 {
 
 /// configurations for the filesystem half of C14: every supported game × language
 pub fn configs_c14(tier: Tier) -> Vec<Config> {
-    configs(tier).into_iter().filter(|c| c.name.contains("localized d/a]") && c.lowers.len() == 3 && c.name.contains("a+d/a")).map(|mut c| {
+    configs(tier).into_iter().filter(|c| (c.name.contains("localized d/a]") && c.lowers.len() == 3 && c.name.contains("a+d/a")) || c.name.contains("other languages only]")).map(|mut c| {
         c.depth = match tier {
             Tier::Quick => 1,
             Tier::Thorough => 2,
@@ -1097,9 +1114,15 @@ pub fn explore(ctx: &Ctx, which: Which) -> Outcome {
     let cfgs = if which == Which::C14 { configs_c14(ctx.tier) } else { configs(ctx.tier) };
     let mut wit_total: BTreeMap<String, u64> = BTreeMap::new();
     for (ci, cfg) in cfgs.into_iter().enumerate() {
+        // the sibling-files start state and the other-languages-only layer exist for the write /
+        // look-up side (C12, C14); the listing observers of C13 gain nothing from them
+        if which == Which::C13 && (cfg.name.contains("siblings") || cfg.name.contains("other languages only")) {
+            continue;
+        }
         let depth = cfg.depth;
         let sys = Sys { cfg, which, base: base.join(format!("c{}", ci)) };
-        if which == Which::C12 && sys.cfg.lowers.len() == 1 {
+        let c14_scale = which == Which::C14 && sys.cfg.name.contains("a+d/a") && [(Loc::FE10, Lang::German), (Loc::FE14, Lang::EnglishNA), (Loc::FE15, Lang::Japanese), (Loc::FE13, Lang::EnglishEU)].contains(&(sys.cfg.loc, sys.cfg.lang));
+        if (which == Which::C12 && sys.cfg.lowers.len() == 1) || c14_scale {
             let n = scale_script(&sys, &mut o);
             cov.transitions += n;
         }
